@@ -417,6 +417,10 @@ fn real_states(tier: Tier) -> Vec<(String, ObservableInstanceState, Vec<String>)
         add(&format!("slave-steps-{steps}"), two(false), &|n| {
             let mut a = Peer::gm(1, 1);
             a.steps_removed = steps;
+            if steps > 0 {
+                // the parent is a boundary clock: the grandmaster is somebody else
+                a.gm_identity = [0xcc, 1, 2, 3, 4, 5, 6, steps as u8];
+            }
             let _ = announce_twice_and_bmca(n, 0, &mut a);
         });
     }
